@@ -412,7 +412,10 @@ async def vanished_selection(part, prop, backend):
         config, login = await backends.make_maildir(base, users=[('bob', 'pwbob', ())], bad_command_limit=None)
     try:
         srv = IMAPServer(login, config)
-        for how in (b'DELETE gone', b'RENAME gone elsewhere'):
+        for how in (b'DELETE gone', b'RENAME gone elsewhere',
+                    # the mailbox stays, its messages change behind the selecting connection's back: CLOSE has to cope with a stale view
+                    b'SELECT gone|STORE 1 +FLAGS (\\Deleted)|EXPUNGE', b'SELECT gone|STORE 1:* +FLAGS (\\Deleted)|CLOSE', b'SELECT gone|STORE 2 +FLAGS (\\Deleted)|EXPUNGE|APPEND gone {1+}\r\nx',
+                    b'APPEND gone (\\Deleted) {1+}\r\nx', b'SELECT gone|MOVE 1 INBOX'):
             a, b = wire.Client(srv), wire.Client(srv)
             await a.start()
             await b.start()
@@ -420,19 +423,23 @@ async def vanished_selection(part, prop, backend):
             await b.send(b'b LOGIN bob pwbob\r\n')
             await a.send(b'a CREATE gone\r\n')
             await a.send(b'a DELETE elsewhere\r\n')
+            for k in range(3):
+                await a.send(b'a APPEND gone (\\Deleted) {2+}\r\nm%d\r\n' % k)
             raw = await a.send(b'a SELECT gone\r\n')
             case = dict(scenario='vanished-selection', backend=backend, how=how.decode())
             part.case(key=f'vanished:{backend}:{how.decode()}', nontrivial=True)
             if b'a OK' not in raw:
                 continue
-            await b.send(b'b ' + how + b'\r\n')
+            for step in how.split(b'|'):
+                await b.send(b'b ' + step + b'\r\n')
+            stays = b'|' in how or how.startswith(b'APPEND')
             out = []
             for line in (b'CLOSE', b'CLOSE', b'NOOP', b'SELECT INBOX'):
                 if a.task.done():
                     out.append(b'<closed>')
                     break
                 out.append((await a.send(b'a ' + line + b'\r\n'))[-60:])
-            ok = [b'a OK' in out[0] or b'BYE' in out[0]]
+            ok = [b'a OK' in out[0] or (b'BYE' in out[0] and not stays)]
             if b'BYE' not in out[0]:
                 ok += [len(out) > 1 and out[1].startswith(b'a BAD'), len(out) > 2 and b'a OK' in out[2], len(out) > 3 and b'a OK' in out[3]]
             if not all(ok):
